@@ -15,8 +15,8 @@
          repairs F11 / F19 / F16 / F41 (kept to show what the permutation quantifier excludes).
 
     Definitions only; polymorphic in NumOps where numeric. *)
-From Coq Require Import List NArith Bool.
-From LinfaVerif Require Import Common.Num Common.NdSum C09.Model.
+From Coq Require Import List NArith ZArith Bool SpecFloat.
+From LinfaVerif Require Import Common.Num Common.NdSum Common.B32 C09.Model.
 Import ListNotations.
 
 (** * (i) parallel loops with disjoint output cells *)
@@ -206,3 +206,10 @@ Definition rotations {A} (l : list A) : list (list A) :=
   flat_map (fun k => let r := skipn k l ++ firstn k l in [r; rev r]) (seq 0 (length l)).
 Definition reorderings {A} (l : list A) : list (list A) :=
   if Nat.leb (length l) 5 then perms l else rotations l.
+
+(** a finite binary32 value in canonical form - what every decoded `f32` bit pattern other than NaN /
+    infinity and every arithmetic result is.  Hypothesis of the binary32 theorem about the modal
+    class (C20/FloatOrder.v); evaluated on the observed class weights by C20/Corr.v. *)
+Definition sf_is_finite (w : spec_float) : bool :=
+  match w with S754_zero _ | S754_finite _ _ _ => true | _ => false end.
+Definition b32_finite (w : spec_float) : bool := (sf_is_finite w && valid_binary p32 e32 w)%bool.
